@@ -572,16 +572,29 @@ fn main() {
         rep.oblige("adaptors_driven_past_2_pow_32_frames", 11);
         long_runs(&mut rep, cli.threads, (1u64 << 32) + (1 << 12));
     }
-    rep.oblige("clone_conformance_scripts", 1);
-    clone_conformance(&mut rep, cli.seed);
-    rep.oblige("adaptors_over_a_user_defined_sample_format", 1);
-    user_defined_format(&mut rep, cli.seed);
-    rep.oblige("concrete_adaptor_pairs_rewrapped_mid_stream", 243);
-    concrete_stacks(&mut rep);
-    rep.oblige("by_ref_resumes", 1);
-    rep.oblige("leaves_of_different_lengths", 1);
-    rep.oblige("adaptor_kinds_at_depth_1", 12);
-    rep.oblige("adaptor_pairs", 100);
+    // "miri32": a 32-BIT build of dasp executed by the interpreter (usize 32 bits wide):
+    // interpreter-sized, every single adaptor with every parameter variant, a seventh of the
+    // pairs and a few random trees, dealt to the shards, frame types in rotation
+    let lean32 = cli.stage == "miri32";
+    if lean32 {
+        rep.note(format!("usize::BITS = {} in this stage", usize::BITS));
+        if usize::BITS == 32 {
+            rep.hit("ran_with_32_bit_usize");
+        }
+        rep.oblige("ran_with_32_bit_usize", 1);
+        rep.oblige("trees_run_as_a_32_bit_build", 1);
+    } else {
+        rep.oblige("clone_conformance_scripts", 1);
+        clone_conformance(&mut rep, cli.seed);
+        rep.oblige("adaptors_over_a_user_defined_sample_format", 1);
+        user_defined_format(&mut rep, cli.seed);
+        rep.oblige("concrete_adaptor_pairs_rewrapped_mid_stream", 243);
+        concrete_stacks(&mut rep);
+        rep.oblige("by_ref_resumes", 1);
+        rep.oblige("leaves_of_different_lengths", 1);
+        rep.oblige("adaptor_kinds_at_depth_1", 12);
+        rep.oblige("adaptor_pairs", 100);
+    }
 
     // ---- every single adaptor and every ordered pair of adaptors, every variant, every frame type
     let mut systematic: Vec<(Node, Vec<Option<u64>>)> = Vec::new();
@@ -639,6 +652,26 @@ fn main() {
     }
     systematic.retain(|(n, _)| n.max_bound(LEAF_AMP) < 0.95);
     let n_sys = systematic.len();
+    if lean32 {
+        for (i, (node, lens)) in systematic.iter().enumerate() {
+            if i as u64 % cli.nshards != cli.shard || (node.n_adaptors() > 1 && (i / cli.nshards as usize) % 7 != 0) {
+                continue;
+            }
+            let f = FNAMES[i % FNAMES.len()];
+            run_any(&mut rep, f, node, lens, 12, if i % 3 == 0 { Some((RESUME_KINDS[i % RESUME_KINDS.len()], 1 + (i as u64 % 5))) } else { None });
+            rep.hit("trees_run_as_a_32_bit_build");
+            flush(&mut rep);
+        }
+        for i in 0..cli.t(6u64, 20u64) {
+            let mut rng = Rng::derive(cli.seed, &[3204, cli.shard, i]);
+            let (node, nl) = random_bounded_tree(&mut rng, 3, 4);
+            let lens: Vec<Option<u64>> = (0..nl).map(|_| if rng.chance(1, 3) { Some(rng.below(12)) } else { None }).collect();
+            run_any(&mut rep, FNAMES[rng.usize_below(FNAMES.len())], &node, &lens, 10, None);
+            rep.hit("trees_run_as_a_32_bit_build");
+            flush(&mut rep);
+        }
+        finish(&cli, rep, t0);
+    }
     let reps = vmon::par_for(cli.threads, n_sys as u64, 8, |_| Report::new("C04", "w"), |rep, i| {
         let (node, lens) = &systematic[i as usize];
         for f in FNAMES {
